@@ -145,9 +145,9 @@ def run_history(item):
     w = sheetdom.World()
     steps = []
     for a in item["actions"]:
-        if a["op"] in ("kidinsert", "kidadd") and a["j"] < len(w.sheet.cssRules):
+        if a["op"] in ("kidinsert", "kidadd", "kidinsertlist") and a["j"] < len(w.sheet.cssRules):
             cont = w.sheet.cssRules[a["j"]]
-            if cont.typeString == "PAGE_RULE" and (a["c"] != "margin" or len(cont.cssRules)):
+            if cont.typeString == "PAGE_RULE" and (a["op"] == "kidinsertlist" or a["c"] != "margin" or len(cont.cssRules)):
                 continue     # rules other than one margin box inside @page: how they serialise is not part of the statement
         out, _ = w.apply(a)
         if out == "ok":
